@@ -19,6 +19,55 @@ def parseCfg (cfg : String) : Option (Nat × Int) :=
   | ["c", b, m] => cfgOfConn (if b == "n" then none else b.toNat?) ((parseInt? m).getD 0)
   | _ => none
 
+/-- Event boundaries of a stream as the specification sees them (same state machine as
+`GoSSE.Proofs.pieceLen`, written with an accumulator so that long streams do not need a deep stack):
+the lengths of the complete pieces (blank lines + an event's lines + the terminator closing it) and the
+length of the unfinished remainder. -/
+def pieceLens : Bytes → Nat → Nat → List Nat → List Nat × Nat
+  | [], _, cur, acc => (acc.reverse, cur)
+  | b :: t, st, cur, acc =>
+    match st with
+    | 0 => if isNl b then pieceLens t 0 (cur + 1) acc else pieceLens t 1 (cur + 1) acc
+    | 1 => if b == 10 then pieceLens t 2 (cur + 1) acc else if b == 13 then pieceLens t 3 (cur + 1) acc
+           else pieceLens t 1 (cur + 1) acc
+    | 2 =>
+      if b == 10 then pieceLens t 0 0 ((cur + 1) :: acc)
+      else if b == 13 then pieceLens t 4 0 ((cur + 1) :: acc)
+      else pieceLens t 1 (cur + 1) acc
+    | 3 =>
+      if b == 10 then pieceLens t 2 (cur + 1) acc
+      else if b == 13 then pieceLens t 4 0 ((cur + 1) :: acc)
+      else pieceLens t 1 (cur + 1) acc
+    | _ =>
+      -- a piece was just closed by a CR: an LF right after it still belongs to that piece
+      if b == 10 then pieceLens t 0 0 (match acc with | n :: r => (n + 1) :: r | [] => [])
+      else if isNl b then pieceLens t 0 (cur + 1) acc else pieceLens t 1 (cur + 1) acc
+
+/-- `limitOf` of `GoSSE.Proofs` -/
+def limitOf (cfg : Option (Nat × Int)) : Nat :=
+  match cfg with
+  | none => 65536
+  | some (capBuf, max) => Nat.max capBuf max.toNat
+
+/-- C20's two clauses on the specification side: does every piece fit the limit (`FitsLimit`: complete
+pieces `< L`, the remainder with one byte of slack), and an upper bound on the bytes pulled from the
+reader when `ErrTooLong` is reported. -/
+def fitsAndBound (L : Nat) (s : Bytes) : Bool × Nat :=
+  let pr := pieceLens s 0 0 []
+  let fits := pr.1.all (· < L) && decide (pr.2 + 1 < L)
+  -- a piece of L+2 bytes or more can never be consumed (a piece of L or L+1 bytes sometimes can: its token
+  -- may end at the CR of the closing CRLF); everything before the first such piece, plus L, bounds the reads
+  let rec go : List Nat → Nat → Nat
+    | [], before => before + L
+    | n :: ns, before => if n < L + 2 then go ns (before + n) else before + L
+  (fits, go pr.1 0)
+
+/-- the converse: a piece of `L + 2` bytes or more, or an unfinished remainder of `L + 1` bytes or more, can
+never be held in the buffer, whatever the segmentation: the run must end in `ErrTooLong` -/
+def mustTooLong (L : Nat) (s : Bytes) : Bool :=
+  let pr := pieceLens s 0 0 []
+  pr.1.any (· ≥ L + 2) || decide (pr.2 ≥ L + 1)
+
 def parseInitialInterval : Int := 3600000000007
 
 /-- `PARSE <conn> <endErr> <errWithLast> <cfg> <stop: - | k> <lastID> <chunks>`;
@@ -40,8 +89,9 @@ def parse (args : List String) : String × String :=
     let cut := match stopAt with | some k => decide (spEvs.length ≥ k) | none => false
     let spEvs' := match stopAt with | some k => spEvs.take k | none => spEvs
     let spEnd := if cut then "nil" else showEnd conn sp.2
+    let fb := fitsAndBound (limitOf (parseCfg cfg)) cs.flatten
     (s!"{showOuts (evs r.1)} | {showPErr r.2.1} | {r.2.2} | {wait r.1}",
-     s!"{showOuts spEvs'} | {spEnd} | {wait sp.1}")
+     s!"{showOuts spEvs'} | {spEnd} | {wait sp.1} | fits={showBool fb.1} bound={fb.2} must={showBool (mustTooLong (limitOf (parseCfg cfg)) cs.flatten)}")
   | _ => ("bad-args", "bad-args")
 
 def handle (op : String) (args : List String) : Option (String × String) :=
